@@ -670,6 +670,45 @@ func c16WalkTransform(c *fw.Ctx, rng *fw.RNG) {
 	}
 	// replacing: every match (in document order, not below an earlier replaced one) becomes a marker
 	want := refsel.Walk(g, root, s)
+	// Two interests that spell the same list index differently ("0" and "-0") make the other walks visit one
+	// position twice under two paths, each with its own continuation. What a TRANSFORM of that position should
+	// be — the two continuations one after the other, or combined — the property does not say; such pairs are
+	// left to the identity check above and counted.
+	{
+		canon := map[string]string{}
+		alias := false
+		for _, v := range want.Visits {
+			cur := root
+			var key []string
+			for _, sg := range v.Segs {
+				switch cur.K {
+				case model.KList:
+					if i, err := strconv.ParseInt(sg, 10, 64); err == nil && i >= 0 && int(i) < len(cur.L) {
+						key = append(key, strconv.FormatInt(i, 10))
+						cur = cur.L[i]
+						continue
+					}
+				case model.KMap:
+					for _, e := range cur.M {
+						if e.K == sg {
+							cur = e.V
+						}
+					}
+				}
+				key = append(key, sg)
+			}
+			k := strings.Join(key, "\x00")
+			p := strings.Join(v.Segs, "\x00")
+			if old, ok := canon[k]; ok && old != p {
+				alias = true
+			}
+			canon[k] = p
+		}
+		if alias {
+			c.Count("walk_transforms_with_aliased_list_interests_skipped", 1)
+			return
+		}
+	}
 	marker := model.String("«replaced»")
 	exp := root
 	var replacedPaths [][]string
